@@ -1,5 +1,5 @@
 use quote::{quote, ToTokens};
-use syn::{spanned::Spanned, Expr, Lit, Meta, Type};
+use syn::{spanned::Spanned, Expr, Lit, Meta, Type, UnOp};
 
 use super::path::path_to_string;
 
@@ -22,9 +22,21 @@ pub(crate) fn meta_2_expr(meta: &Meta) -> syn::Result<Expr> {
 
 #[inline]
 pub(crate) fn auto_adjust_expr(expr: Expr, ty: Option<&Type>) -> Expr {
-    match &expr {
-        Expr::Lit(lit) => {
-            match &lit.lit {
+    // a negative number is either a single negative literal (`Default = -1`) or the negation of a literal (`expression(-1)`)
+    let lit = match &expr {
+        Expr::Lit(lit) => Some(&lit.lit),
+        Expr::Unary(unary) => match (&unary.op, unary.expr.as_ref()) {
+            (UnOp::Neg(_), Expr::Lit(lit)) if matches!(lit.lit, Lit::Int(_) | Lit::Float(_)) => {
+                Some(&lit.lit)
+            },
+            _ => None,
+        },
+        _ => None,
+    };
+
+    match lit {
+        Some(lit) => {
+            match lit {
                 Lit::Int(lit) => {
                     if let Some(Type::Path(ty)) = ty {
                         let ty_string = ty.into_token_stream().to_string();
@@ -109,6 +121,6 @@ pub(crate) fn auto_adjust_expr(expr: Expr, ty: Option<&Type>) -> Expr {
 
             syn::parse2(quote!(::core::convert::Into::into(#expr))).unwrap()
         },
-        _ => expr,
+        None => expr,
     }
 }
